@@ -20,9 +20,23 @@ func init() {
 	register("unicode", family{gen: genUnicode, run: runUnicode})
 }
 
+// markupInput: a string, a list of byte values, or - for inputs too large to spell out -
+// ("rep" n part) = part repeated n times and ("cat" part ...) = the parts one after the other.
 func markupInput(n *sx.Node) string {
 	if n.Kind == 's' {
 		return n.Text()
+	}
+	if len(n.L) >= 1 && n.L[0].Kind == 's' {
+		switch n.L[0].Text() {
+		case "rep":
+			return strings.Repeat(markupInput(n.L[2]), int(n.L[1].Int()))
+		case "cat":
+			var b strings.Builder
+			for _, p := range n.L[1:] {
+				b.WriteString(markupInput(p))
+			}
+			return b.String()
+		}
 	}
 	b := make([]byte, len(n.L))
 	for i, x := range n.L {
